@@ -1624,4 +1624,134 @@ theorem receiveAll_cut (ms : List Rfc6455.Msg) (cs : List Rfc6455.Ctl) (fin : Bo
       List.append_nil, List.reverse_replicate, List.filter_append, filter_replicate_nil, hx1]
     simp
 
+/-! ## a stream cut inside a message, after its first frame -/
+
+theorem openBytes_size_le (t : List Rfc6455.Frag) : moreSize t ≤ (Rfc6455.openBytes t).length := by
+  induction t with
+  | nil => simp [moreSize]
+  | cons f t ih =>
+    simp only [moreSize, Rfc6455.openBytes, List.length_append]
+    have := ctlBytes_length f.before
+    have := frame_length_ge false Rfc6455.opCont f.key f.payload
+    omega
+
+/-- continuation frames that do not end the message: all appended, the loop is then at `rest`, still inside the message -/
+theorem recv_open (t : List Rfc6455.Frag) : ∀ (fuel : Nat) (c : Conn) (msg rest : List UInt8),
+    Live c → (∀ f ∈ t, FragFits f) → msg.length + (t.flatMap (·.payload)).length ≤ 2147483632 → rest ≠ [] →
+    c.inp = Rfc6455.openBytes t ++ rest →
+    ∃ c', Live c' ∧ c'.inp = rest ∧ c'.isClient = c.isClient ∧
+      recvLoop (fuel + moreSize t) c msg true = recvLoop fuel c' (msg ++ t.flatMap (·.payload)) true := by
+  induction t with
+  | nil =>
+    intro fuel c msg rest hc _ _ _ hi
+    exact ⟨c, hc, by simpa [Rfc6455.openBytes] using hi, rfl, by simp [moreSize]⟩
+  | cons f t ih =>
+    intro fuel c msg rest hc hf htot hr hi
+    have hff : FragFits f := hf f (List.mem_cons_self ..)
+    have hsum : msg.length + f.payload.length ≤ 2147483632 := by
+      simp only [List.flatMap_cons, List.length_append] at htot; omega
+    simp only [Rfc6455.openBytes, List.append_assoc] at hi
+    have hne1 : Rfc6455.frame false Rfc6455.opCont f.key f.payload ++ (Rfc6455.openBytes t ++ rest) ≠ [] := by
+      simp [frame_ne_nil]
+    obtain ⟨c1, hl1, hi1, hc1, hr1⟩ := recv_ctls_partial f.before (fuel + moreSize t + 1) c msg _ hc hff.2 hne1 hi
+    have hfuel : fuel + moreSize (f :: t) = fuel + moreSize t + 1 + f.before.length := by simp [moreSize]; omega
+    have hne2 : Rfc6455.openBytes t ++ rest ≠ [] := by simp [hr]
+    rw [hfuel, hr1, recv_data_more (fuel + moreSize t) c1 hl1 msg true Rfc6455.opCont (by decide) f.key f.payload _ hff.1
+      (Or.inr (Or.inr hne2)) hsum hi1]
+    obtain ⟨c', h1, h2, h3, h4⟩ := ih fuel { c1 with inp := Rfc6455.openBytes t ++ rest } (msg ++ f.payload) rest
+      ⟨hl1.open_, hl1.sound⟩ (fun y hy => hf y (List.mem_cons_of_mem _ hy))
+      (by simp only [List.flatMap_cons, List.length_append] at htot ⊢; omega) hr rfl
+    refine ⟨c', h1, h2, h3.trans hc1, ?_⟩
+    rw [h4]; simp
+
+/-- inside a message: control frames, then a frame cut short — the loop ends with what it has, closed -/
+theorem recv_cut_partial (cs : List Rfc6455.Ctl) (fin : Bool) (op : Nat) (hop : op < 16) (key : Option Rfc6455.Key)
+    (p : List UInt8) (hp : Fits p) (k : Nat) (hk0 : 0 < k) (hk : k < (Rfc6455.frame fin op key p).length)
+    (fuel : Nat) (c : Conn) (msg : List UInt8) (hc : Live c) (hcs : CtlsFit cs)
+    (hi : c.inp = Rfc6455.ctlBytes cs ++ (Rfc6455.frame fin op key p).take k) :
+    ∃ c', c'.closed = true ∧ c'.fault = false ∧ recvLoop (fuel + 1 + cs.length) c msg true = (msg, c') := by
+  have hcut : (Rfc6455.frame fin op key p).take k ≠ [] := by
+    intro h0
+    have := congrArg List.length h0
+    simp only [List.length_take, List.length_nil] at this; omega
+  obtain ⟨c1, hl1, hi1, _, hr1⟩ := recv_ctls_partial cs (fuel + 1) c msg _ hc hcs hcut hi
+  have hclosed : c1.isClosed = false := by
+    unfold Conn.isClosed; rw [hl1.open_, hi1]
+    cases hh : (Rfc6455.frame fin op key p).take k with
+    | nil => exact absurd hh hcut
+    | cons a t => rfl
+  refine ⟨{ c1 with closed := true, inp := [] }, rfl, hl1.sound, ?_⟩
+  rw [hr1, recvLoop, hclosed, hi1, truncated_frame_close fin op hop key p hp k hk]
+  simp
+
+/-- **The stream is cut inside a message, after its first frame** (inside a continuation frame or inside
+    a control frame between fragments, at any offset): the complete messages before it are delivered
+    intact; the interrupted message yields at most one further result, the concatenation of its fragments
+    received whole; the connection ends closed. -/
+theorem receiveAll_cut_inside (ms : List Rfc6455.Msg) (m : Rfc6455.Msg) (t1 : List Rfc6455.Frag) (cs : List Rfc6455.Ctl)
+    (fin : Bool) (op : Nat) (hop : op < 16) (key : Option Rfc6455.Key) (p : List UInt8) (k : Nat) (c : Conn)
+    (hc : Live c) (hm : ∀ x ∈ ms, MsgFits x) (hfirst : FragFits m.first) (ht1 : ∀ f ∈ t1, FragFits f)
+    (htot : m.first.payload.length + (t1.flatMap (·.payload)).length ≤ 2147483632)
+    (hcs : CtlsFit cs) (hp : Fits p) (hk0 : 0 < k) (hk : k < (Rfc6455.frame fin op key p).length)
+    (hi : c.inp = ms.flatMap Rfc6455.Msg.bytes ++ (Rfc6455.ctlBytes m.first.before ++
+            (Rfc6455.frame false (msgOp m) m.first.key m.first.payload ++ (Rfc6455.openBytes t1 ++
+              (Rfc6455.ctlBytes cs ++ (Rfc6455.frame fin op key p).take k))))) :
+    ∃ extra c', receiveAll (c.inp.length + 1) c [] = (extra, c') ∧
+      extra.filter (· ≠ []) = (ms.map (·.payload)).filter (· ≠ []) ++
+          [m.first.payload ++ t1.flatMap (·.payload)].filter (· ≠ []) ∧
+      c'.closed = true ∧ c'.fault = false := by
+  have hcut : (Rfc6455.frame fin op key p).take k ≠ [] := by
+    intro h0
+    have := congrArg List.length h0
+    simp only [List.length_take, List.length_nil] at this; omega
+  have hcutlen : 1 ≤ ((Rfc6455.frame fin op key p).take k).length := by
+    cases hh : (Rfc6455.frame fin op key p).take k with
+    | nil => exact absurd hh hcut
+    | cons a t => simp
+  have hop2 : msgOp m ≤ 2 := by unfold msgOp; split <;> decide
+  -- the complete messages
+  have hrest0 : Rfc6455.ctlBytes m.first.before ++ (Rfc6455.frame false (msgOp m) m.first.key m.first.payload ++
+      (Rfc6455.openBytes t1 ++ (Rfc6455.ctlBytes cs ++ (Rfc6455.frame fin op key p).take k))) ≠ [] := by
+    simp [frame_ne_nil]
+  obtain ⟨extra, c1, f1, hl1, hi1, _, hf1, hr1, hx1⟩ := receiveAll_msgs ms (c.inp.length + 1) c [] _ hc hm hrest0 hi (by omega)
+  -- control frames before the first fragment
+  have hb := ctlBytes_length m.first.before
+  have hfr := frame_length_ge false (msgOp m) m.first.key m.first.payload
+  simp only [List.length_append] at hf1
+  obtain ⟨f2, hf2⟩ : ∃ f2, f1 = (f2 + 1) + m.first.before.length := ⟨f1 - m.first.before.length - 1, by omega⟩
+  have hne1 : Rfc6455.frame false (msgOp m) m.first.key m.first.payload ++
+      (Rfc6455.openBytes t1 ++ (Rfc6455.ctlBytes cs ++ (Rfc6455.frame fin op key p).take k)) ≠ [] := by
+    simp [frame_ne_nil]
+  obtain ⟨c2, hl2, hi2, _, hr2⟩ := receiveAll_ctls m.first.before (f2 + 1) c1 (extra.reverse ++ []) _ hl1 hfirst.2 hne1 hi1
+  have hcl2 : c2.isClosed = false := isClosed_frame c2 hl2 _ _ (frame_ne_nil false (msgOp m) m.first.key m.first.payload) hi2
+  -- the interrupted receive()
+  have hne3 : Rfc6455.openBytes t1 ++ (Rfc6455.ctlBytes cs ++ (Rfc6455.frame fin op key p).take k) ≠ [] := by simp [hcut]
+  have hne4 : Rfc6455.ctlBytes cs ++ (Rfc6455.frame fin op key p).take k ≠ [] := by simp [hcut]
+  have hsz := openBytes_size_le t1
+  have hcsl := ctlBytes_length cs
+  have hlen2 : c2.inp.length = (Rfc6455.frame false (msgOp m) m.first.key m.first.payload).length +
+      ((Rfc6455.openBytes t1).length + ((Rfc6455.ctlBytes cs).length + ((Rfc6455.frame fin op key p).take k).length)) := by
+    rw [hi2]; simp only [List.length_append]
+  obtain ⟨f3, hf3⟩ : ∃ f3, c2.inp.length = (f3 + 1 + cs.length) + moreSize t1 :=
+    ⟨c2.inp.length - moreSize t1 - cs.length - 1, by omega⟩
+  have hrecv : ∃ c3, c3.closed = true ∧ c3.fault = false ∧
+      receive c2 = (m.first.payload ++ t1.flatMap (·.payload), c3) := by
+    unfold receive
+    rw [recv_data_more c2.inp.length c2 hl2 [] false (msgOp m) hop2 m.first.key m.first.payload _ hfirst.1
+      (Or.inr (Or.inr hne3)) (by have : m.first.payload.length ≤ 2147483632 := hfirst.1; simpa using this) hi2, hf3]
+    obtain ⟨c', h1, h2, _, h4⟩ := recv_open t1 (f3 + 1 + cs.length) { c2 with inp := Rfc6455.openBytes t1 ++ (Rfc6455.ctlBytes cs ++ (Rfc6455.frame fin op key p).take k) }
+      ([] ++ m.first.payload) _ ⟨hl2.open_, hl2.sound⟩ ht1 (by simpa using htot) hne4 rfl
+    rw [h4]
+    obtain ⟨c3, g1, g2, g3⟩ := recv_cut_partial cs fin op hop key p hp k hk0 hk f3 c' ([] ++ m.first.payload ++ t1.flatMap (·.payload)) h1 hcs h2
+    exact ⟨c3, g1, g2, by rw [g3]; simp⟩
+  obtain ⟨c3, hc3, hf3', hrecv⟩ := hrecv
+  refine ⟨((m.first.payload ++ t1.flatMap (·.payload)) :: (List.replicate m.first.before.length [] ++ (extra.reverse ++ []))).reverse, { c3 with closed := true }, ?_, ?_, rfl, hf3'⟩
+  · rw [hr1, hf2, hr2, receiveAll, hcl2]
+    simp only [Bool.false_eq_true, if_false, hrecv]
+    cases f2 with
+    | zero => simp [receiveAll, closed_eta c3 hc3]
+    | succ f => simp [receiveAll, Conn.isClosed, hc3]
+  · simp only [List.reverse_cons, List.reverse_append, List.reverse_reverse, List.reverse_nil, List.nil_append,
+      List.append_nil, List.reverse_replicate, List.filter_append, filter_replicate_nil, hx1]
+
 end AslProofs.WebSocket
